@@ -16,13 +16,13 @@ Every theorem quantifies over
 * `o c : List Nat` — the peers and HTTP connections that exist when the connection is accepted,
 * `evs : List Event` — every sequence of events of any length, where each event carries what the
   environment decided: the accept outcome (5 cases), for a request line what http-parser,
-  `find_url_handler` and the handler's `create` returned, for a header line what http-parser
+  `find_url_handler` and the handler's `create` returned and whether header data rode along, for a header line what http-parser
   returned, whether `parser.upgrade` was set and whether the 101 was written, the three reader-level
   endings, the end of the WebSocket phase, and SIGTERM.  Events that the current phase cannot
   produce leave the state unchanged (`Cjet.Http.step`), so quantifying over all lists is
   quantifying over all admissible sequences (`Cjet.Http.enabled`) with arbitrary junk interleaved.
 
-The version parameter is `fixed` (the code as it is); the two `…_counterexample_before_…`
+The version parameter is `fixed` (the code as it is); the three `…_counterexample_before_…`
 theorems evaluate the historic variants of the same transcription.
 -/
 namespace Cjet.Props.C13
@@ -66,7 +66,7 @@ theorem non_upgrade_leaves_nothing (o c : List Nat) (a : Accept) (evs : List Eve
     F17 trigger) ends the connection with nothing left, two other peers and one other connection
     untouched. -/
 example :
-    let s := run fixed (before [7, 9] [3]) [.accept .ok, .startLine false true true .ok]
+    let s := run fixed (before [7, 9] [3]) [.accept .ok, .startLine false true true false .ok]
     s.phase = .done ∧ s.sent101 = false ∧ s.sent = [400] ∧ s.peerList = [.other 7, .other 9] ∧
       s.connList = [.other 3] ∧ s.peerCount = 2 := by decide
 
@@ -94,7 +94,7 @@ theorem no_orphan_peer (o c : List Nat) (evs : List Event) :
     split at hreg' <;> simp at hreg'
 
 example :
-    let s := run fixed (before [1] []) [.accept .ok, .startLine true true true .ok, .headerLine true false none]
+    let s := run fixed (before [1] []) [.accept .ok, .startLine true true true false .ok, .headerLine true false none]
     s.peerRegistered = true ∧ s.phase = .headers := by decide
 
 /-- **no_fault_ever.**  No event sequence makes any statement of the transcribed code go through a
@@ -142,16 +142,16 @@ theorem error_status_or_close (o c : List Nat) (evs : List Event) :
       · exact Or.inr (Or.inr (Or.inr (by simpa using e)))
 
 example :
-    let s := run fixed (before [] []) [.accept .ok, .startLine false false true .ok]
+    let s := run fixed (before [] []) [.accept .ok, .startLine false false true false .ok]
     s.phase = .done ∧ s.sent101 = false ∧ s.sent = [404] := by decide
 
 example :
-    let s := run fixed (before [] []) [.accept .ok, .startLine true true true .noTableMem]
+    let s := run fixed (before [] []) [.accept .ok, .startLine true true true false .noTableMem]
     s.phase = .done ∧ s.sent101 = false ∧ s.sent = [500] := by decide
 
 example :
     let s := run fixed (before [] [])
-      [.accept .ok, .startLine true true true .ok, .headerLine true false none, .lineTooLong]
+      [.accept .ok, .startLine true true true false .ok, .headerLine true false none, .lineTooLong]
     s.phase = .done ∧ s.sent101 = false ∧ s.sent = [] := by decide
 
 /-- **term_releases_all.**  SIGTERM at any point of any event sequence: the connection has ended,
@@ -197,7 +197,7 @@ theorem upgrade_keeps_exactly_one_peer (o c : List Nat) (evs : List Event) :
 
 example :
     let s := run fixed (before [4] [])
-      [.accept .ok, .startLine true true true .ok, .headerLine true false none, .headerLine true true (some true)]
+      [.accept .ok, .startLine true true true false .ok, .headerLine true false none, .headerLine true true (some true)]
     s.sent101 = true ∧ s.phase = .ws ∧ s.peerCount = 2 := by decide
 
 /-! ## the defects that were repaired, on the same transcription -/
@@ -210,7 +210,7 @@ example :
     walks the peer list into the released connection (use after release, second close of the
     descriptor, double free). -/
 theorem orphan_peer_counterexample_before_fix :
-    let s := run original (before [] []) [.accept .ok, .startLine false true true .ok]
+    let s := run original (before [] []) [.accept .ok, .startLine false true true false .ok]
     s.phase = .done ∧ s.sent101 = false ∧ s.sent = [400] ∧
       s.peerRegistered = true ∧ s.peerCount = 1 ∧ s.peer.live = true ∧
       s.conn.live = false ∧ s.bs.live = false ∧ s.fd.live = false ∧
@@ -221,7 +221,7 @@ theorem orphan_peer_counterexample_before_fix :
 
 /-- The same history on the code as it is. -/
 example :
-    let s := run fixed (before [] []) [.accept .ok, .startLine false true true .ok]
+    let s := run fixed (before [] []) [.accept .ok, .startLine false true true false .ok]
     s.phase = .done ∧ s.sent = [400] ∧ s.peerRegistered = false ∧ s.peerCount = 0 ∧ s.peer.acq = 0 ∧
       (step fixed s .term).faults = [] := by decide
 
@@ -238,5 +238,22 @@ theorem stale_connection_counterexample_before_F54 :
 example :
     let s := run fixed (before [] []) [.accept .addFails]
     s.phase = .done ∧ s.connList = [] ∧ s.faults = [] ∧ s.fd = ⟨false, 1, 1⟩ := by decide
+
+/-- **wild_header_callback_counterexample_before_F55** (repaired by 9bd242d).  After b38244f the
+    peer is created when the whole start line has parsed, but `on_url` still installed the handler's
+    header callbacks at once: a request line ended by a bare LF with header data before the first
+    CRLF makes http-parser call them inside `read_start_line`'s `http_parser_execute`, through the
+    peer object that does not exist yet (`connection->parser.data` is uninitialised). -/
+theorem wild_header_callback_counterexample_before_F55 :
+    let s := run beforeF55 (before [] []) [.accept .ok, .startLine true true true true .ok]
+    s.faults = [.useAfterRelease .peer] ∧ s.trace.take 10 =
+      [.acquire .fd, .acquire .conn, .acquire .bs, .setHandler .conn, .touch .conn, .listConn,
+       .setReader .startLine, .epollAdd, .touch .conn, .touch .peer] := by
+  decide
+
+/-- The same line on the code as it is: the refusing callbacks stop the parser, 400, nothing left. -/
+example :
+    let s := run fixed (before [] []) [.accept .ok, .startLine false true true true .ok]
+    s.phase = .done ∧ s.sent = [400] ∧ s.faults = [] ∧ s.peer.acq = 0 ∧ s.allSettled := by decide
 
 end Cjet.Props.C13
